@@ -284,9 +284,11 @@ Definition wire_157 (x : sx) : sx :=
       match vfw_store cps scaled vvo table B vis chv lostv w chw lostw wc chc lostc p tch fch with
       | Err e => L [I 0; of_err e]
       | Ok o =>
-          let fv := presel_rows p (fill_lost3 lost_fill_cx chv lostv vis) in
-          let fw := presel_rows p (fill_lost3 lost_fill chw lostw w) in
-          let fc := presel_rows p (fill_lost2 lost_fill chc lostc wc) in
+          (* the SPEC side reads a lost chunk as zero (the documented behaviour), whatever the regenerated fill value is *)
+          let zf := Fin 0%Qc in
+          let fv := presel_rows p (fill_lost3 (zf, zf) chv lostv vis) in
+          let fw := presel_rows p (fill_lost3 zf chw lostw w) in
+          let fc := presel_rows p (fill_lost2 zf chc lostc wc) in
           let spec := match cps with
                       | Some c =>
                           let '(sv, sw, su) := spec_arrays c scaled (match vvo with VAuto => Some table | _ => None end)
